@@ -873,194 +873,256 @@ func c03NewEdge(c *kit.Ctx, m *storeModel, hm *hashModel, r5 *kit.Rule) {
 			return false
 		}},
 	}
-	// accumulators: the delta itself, or a uint32 local that is XORed into the delta
-	// afterwards (`sub ^= p.CRC()` in the loops, `delta ^= sub` behind them)
-	accum := map[types.Object]bool{wl.delta: true}
-	ast.Inspect(f.Body, func(n ast.Node) bool {
-		x, ok := n.(*ast.AssignStmt)
-		if !ok || len(x.Lhs) != 1 || len(x.Rhs) != 1 || kit.ObjOf(info, x.Lhs[0]) != wl.delta {
-			return true
-		}
-		addOperands := func(e ast.Expr) {
-			ast.Inspect(e, func(y ast.Node) bool {
-				if id, ok := y.(*ast.Ident); ok {
-					if o, ok := kit.ObjOf(info, id).(*types.Var); ok && !o.IsField() && isUint32(o.Type()) {
-						accum[o] = true
-					}
-				}
-				if _, isCall := y.(*ast.CallExpr); isCall {
-					return false
-				}
-				return true
-			})
-		}
-		if x.Tok == token.XOR_ASSIGN {
-			addOperands(x.Rhs[0])
-		} else if be, ok := ast.Unparen(x.Rhs[0]).(*ast.BinaryExpr); ok && be.Op == token.XOR {
-			addOperands(be)
-		}
-		return true
-	})
-	isAccum := func(e ast.Expr) bool { o := kit.ObjOf(info, e); return o != nil && accum[o] }
-	// xorPerRow: the loop body XORs the row's contribution into the delta as a
-	// top-level statement (every row, exactly one statement)
-	xorPerRow := func(fd fold, body *ast.BlockStmt, row map[types.Object]bool) bool {
-		for _, st := range body.List {
-			if x, ok := st.(*ast.AssignStmt); ok && x.Tok == token.XOR_ASSIGN && len(x.Lhs) == 1 && isAccum(x.Lhs[0]) && fd.operand(row, x.Rhs[0]) {
+	// detect finds, in function f with hash accumulator dlt and node id parameter node,
+	// the queries whose rows are folded into the accumulator (one XOR per row)
+	detect := func(f *kit.Func, dlt types.Object, node *types.Var) (map[string]*ast.CallExpr, map[string]string) {
+		// accumulators: the delta itself, or a uint32 local that is XORed into the delta
+		// afterwards (`sub ^= p.CRC()` in the loops, `delta ^= sub` behind them)
+		accum := map[types.Object]bool{dlt: true}
+		ast.Inspect(f.Body, func(n ast.Node) bool {
+			x, ok := n.(*ast.AssignStmt)
+			if !ok || len(x.Lhs) != 1 || len(x.Rhs) != 1 || kit.ObjOf(info, x.Lhs[0]) != dlt {
 				return true
 			}
-		}
-		return false
-	}
-	folded := map[string]*ast.CallExpr{}
-	// why a fold was not recognised: "viol:<msg>" for a contradiction, "undec:<msg>" for an unknown spelling
-	diag := map[string]string{}
-	loopDiag := func(fd fold, body *ast.BlockStmt, row map[types.Object]bool) {
-		assigns, xors := 0, 0
-		ast.Inspect(body, func(n ast.Node) bool {
-			if x, ok := n.(*ast.AssignStmt); ok {
-				for _, l := range x.Lhs {
-					if isAccum(l) {
-						assigns++
-						if x.Tok == token.XOR_ASSIGN {
-							xors++
+			addOperands := func(e ast.Expr) {
+				ast.Inspect(e, func(y ast.Node) bool {
+					if id, ok := y.(*ast.Ident); ok {
+						if o, ok := kit.ObjOf(info, id).(*types.Var); ok && !o.IsField() && isUint32(o.Type()) {
+							accum[o] = true
 						}
 					}
-				}
+					if _, isCall := y.(*ast.CallExpr); isCall {
+						return false
+					}
+					return true
+				})
+			}
+			if x.Tok == token.XOR_ASSIGN {
+				addOperands(x.Rhs[0])
+			} else if be, ok := ast.Unparen(x.Rhs[0]).(*ast.BinaryExpr); ok && be.Op == token.XOR {
+				addOperands(be)
 			}
 			return true
 		})
-		switch {
-		case assigns == 0:
-			diag[fd.name] = "viol:the " + fd.name + " are read at " + f.At(body) + " but not XORed into the delta"
-		case xors == assigns:
-			diag[fd.name] = "viol:the XOR of the " + fd.name + " at " + f.At(body) + " is not one unconditional statement per row over the row's own value"
-		default:
-			diag[fd.name] = "undec:the delta is updated in the loop at " + f.At(body) + " in a form that is not followed"
+		isAccum := func(e ast.Expr) bool { o := kit.ObjOf(info, e); return o != nil && accum[o] }
+		// xorPerRow: the loop body XORs the row's contribution into the delta as a
+		// top-level statement (every row, exactly one statement)
+		xorPerRow := func(fd fold, body *ast.BlockStmt, row map[types.Object]bool) bool {
+			for _, st := range body.List {
+				if x, ok := st.(*ast.AssignStmt); ok && x.Tok == token.XOR_ASSIGN && len(x.Lhs) == 1 && isAccum(x.Lhs[0]) && fd.operand(row, x.Rhs[0]) {
+					return true
+				}
+			}
+			return false
 		}
-	}
-	for _, fd := range folds {
-		for _, s := range m.sql.Sites {
-			if len(s.Stmts) == 1 && fd.match(s) && s.F != f && s.F.Decl != nil && diag[fd.name] == "" {
-				for _, call := range f.AllCalls(false) {
-					if f.CalleeFunc(call) == s.F {
-						diag[fd.name] = "undec:the " + fd.name + " are read in helper " + s.F.Name + " (not followed)"
-					}
-				}
-			}
-			if s.F != f || len(s.Stmts) != 1 || !fd.match(s) {
-				continue
-			}
-			if !strings.HasPrefix(diag[fd.name], "viol:") {
-				diag[fd.name] = "undec:the query at " + f.At(s.Call) + " reads the " + fd.name + ", but the per-row XOR into the delta is not recognised"
-			}
-			onTx := (s.Recv == "tx" && s.Method == "Query") || (s.Recv == "wrapper" && s.TxArg != nil && !kit.IsNilIdent(info, s.TxArg))
-			if !onTx || len(s.Args) != 1 || kit.ObjOf(info, s.Args[0]) != types.Object(node) {
-				continue
-			}
-			as, ok := c.P.Parent(f.File, s.Call).(*ast.AssignStmt)
-			if !ok {
-				continue
-			}
-			results := map[types.Object]bool{}
-			for _, l := range as.Lhs {
-				if o := kit.ObjOf(info, l); o != nil {
-					results[o] = true
-				}
-			}
-			ast.Inspect(f.Body, func(n ast.Node) bool {
-				switch loop := n.(type) {
-				case *ast.ForStmt:
-					// for rows.Next() { <row variables filled by Scan or a scan helper>; delta ^= operand }
-					if loop.Cond == nil {
-						return true
-					}
-					cc, ok := ast.Unparen(loop.Cond).(*ast.CallExpr)
-					if !ok || !kit.CallIs(info, cc, "database/sql.(*Rows).Next") {
-						return true
-					}
-					sel, ok := ast.Unparen(cc.Fun).(*ast.SelectorExpr)
-					if !ok || !results[kit.ObjOf(info, sel.X)] {
-						return true
-					}
-					rows := kit.ObjOf(info, sel.X)
-					row := map[types.Object]bool{}
-					for _, st := range loop.Body.List {
-						ast.Inspect(st, func(x ast.Node) bool {
-							switch v := x.(type) {
-							case *ast.CallExpr:
-								if kit.CallIs(info, v, "database/sql.(*Rows).Scan") {
-									for _, a := range v.Args {
-										if u, ok := ast.Unparen(a).(*ast.UnaryExpr); ok && u.Op == token.AND {
-											if o := kit.ObjOf(info, u.X); o != nil {
-												row[o] = true
-											}
-											if sel, ok := ast.Unparen(u.X).(*ast.SelectorExpr); ok {
-												if o := kit.ObjOf(info, sel.X); o != nil {
-													row[o] = true
-												}
-											}
-										}
-									}
-								}
-							case *ast.AssignStmt:
-								// p, err := scanHelper(rows)
-								if len(v.Rhs) == 1 {
-									if call, ok := ast.Unparen(v.Rhs[0]).(*ast.CallExpr); ok {
-										takesRows := false
-										for _, a := range call.Args {
-											if kit.ObjOf(info, a) == rows {
-												takesRows = true
-											}
-										}
-										if takesRows {
-											for _, l := range v.Lhs {
-												if o := kit.ObjOf(info, l); o != nil && !isErrorType(o.Type()) {
-													row[o] = true
-												}
-											}
-										}
-									}
-								}
+		folded := map[string]*ast.CallExpr{}
+		// why a fold was not recognised: "viol:<msg>" for a contradiction, "undec:<msg>" for an unknown spelling
+		diag := map[string]string{}
+		loopDiag := func(fd fold, body *ast.BlockStmt, row map[types.Object]bool) {
+			assigns, xors := 0, 0
+			ast.Inspect(body, func(n ast.Node) bool {
+				if x, ok := n.(*ast.AssignStmt); ok {
+					for _, l := range x.Lhs {
+						if isAccum(l) {
+							assigns++
+							if x.Tok == token.XOR_ASSIGN {
+								xors++
 							}
-							return true
-						})
-					}
-					if len(row) > 0 && xorPerRow(fd, loop.Body, row) {
-						folded[fd.name] = s.Call
-					} else {
-						loopDiag(fd, loop.Body, row)
-					}
-				case *ast.RangeStmt:
-					// rowsAsSlice, err := helper(tx, query, id); for _, p := range rowsAsSlice { delta ^= operand }
-					if !results[kit.ObjOf(info, loop.X)] || loop.Value == nil {
-						return true
-					}
-					if _, isSlice := info.TypeOf(loop.X).Underlying().(*types.Slice); !isSlice {
-						return true
-					}
-					row := map[types.Object]bool{}
-					if o := kit.ObjOf(info, loop.Value); o != nil {
-						row[o] = true
-					}
-					if len(row) > 0 && xorPerRow(fd, loop.Body, row) {
-						folded[fd.name] = s.Call
-					} else {
-						loopDiag(fd, loop.Body, row)
+						}
 					}
 				}
 				return true
 			})
+			switch {
+			case assigns == 0:
+				diag[fd.name] = "viol:the " + fd.name + " are read at " + f.At(body) + " but not XORed into the delta"
+			case xors == assigns:
+				diag[fd.name] = "viol:the XOR of the " + fd.name + " at " + f.At(body) + " is not one unconditional statement per row over the row's own value"
+			default:
+				diag[fd.name] = "undec:the delta is updated in the loop at " + f.At(body) + " in a form that is not followed"
+			}
+		}
+		for _, fd := range folds {
+			for _, s := range m.sql.Sites {
+				if len(s.Stmts) == 1 && fd.match(s) && s.F != f && s.F.Decl != nil && diag[fd.name] == "" {
+					for _, call := range f.AllCalls(false) {
+						if f.CalleeFunc(call) == s.F {
+							diag[fd.name] = "undec:the " + fd.name + " are read in helper " + s.F.Name + " (not followed)"
+						}
+					}
+				}
+				if s.F != f || len(s.Stmts) != 1 || !fd.match(s) {
+					continue
+				}
+				if !strings.HasPrefix(diag[fd.name], "viol:") {
+					diag[fd.name] = "undec:the query at " + f.At(s.Call) + " reads the " + fd.name + ", but the per-row XOR into the delta is not recognised"
+				}
+				onTx := (s.Recv == "tx" && s.Method == "Query") || (s.Recv == "wrapper" && s.TxArg != nil && !kit.IsNilIdent(info, s.TxArg))
+				if !onTx || len(s.Args) != 1 || kit.ObjOf(info, s.Args[0]) != types.Object(node) {
+					continue
+				}
+				as, ok := c.P.Parent(f.File, s.Call).(*ast.AssignStmt)
+				if !ok {
+					continue
+				}
+				results := map[types.Object]bool{}
+				for _, l := range as.Lhs {
+					if o := kit.ObjOf(info, l); o != nil {
+						results[o] = true
+					}
+				}
+				ast.Inspect(f.Body, func(n ast.Node) bool {
+					switch loop := n.(type) {
+					case *ast.ForStmt:
+						// for rows.Next() { <row variables filled by Scan or a scan helper>; delta ^= operand }
+						if loop.Cond == nil {
+							return true
+						}
+						cc, ok := ast.Unparen(loop.Cond).(*ast.CallExpr)
+						if !ok || !kit.CallIs(info, cc, "database/sql.(*Rows).Next") {
+							return true
+						}
+						sel, ok := ast.Unparen(cc.Fun).(*ast.SelectorExpr)
+						if !ok || !results[kit.ObjOf(info, sel.X)] {
+							return true
+						}
+						rows := kit.ObjOf(info, sel.X)
+						row := map[types.Object]bool{}
+						for _, st := range loop.Body.List {
+							ast.Inspect(st, func(x ast.Node) bool {
+								switch v := x.(type) {
+								case *ast.CallExpr:
+									if kit.CallIs(info, v, "database/sql.(*Rows).Scan") {
+										for _, a := range v.Args {
+											if u, ok := ast.Unparen(a).(*ast.UnaryExpr); ok && u.Op == token.AND {
+												if o := kit.ObjOf(info, u.X); o != nil {
+													row[o] = true
+												}
+												if sel, ok := ast.Unparen(u.X).(*ast.SelectorExpr); ok {
+													if o := kit.ObjOf(info, sel.X); o != nil {
+														row[o] = true
+													}
+												}
+											}
+										}
+									}
+								case *ast.AssignStmt:
+									// p, err := scanHelper(rows)
+									if len(v.Rhs) == 1 {
+										if call, ok := ast.Unparen(v.Rhs[0]).(*ast.CallExpr); ok {
+											takesRows := false
+											for _, a := range call.Args {
+												if kit.ObjOf(info, a) == rows {
+													takesRows = true
+												}
+											}
+											if takesRows {
+												for _, l := range v.Lhs {
+													if o := kit.ObjOf(info, l); o != nil && !isErrorType(o.Type()) {
+														row[o] = true
+													}
+												}
+											}
+										}
+									}
+								}
+								return true
+							})
+						}
+						if len(row) > 0 && xorPerRow(fd, loop.Body, row) {
+							folded[fd.name] = s.Call
+						} else {
+							loopDiag(fd, loop.Body, row)
+						}
+					case *ast.RangeStmt:
+						// rowsAsSlice, err := helper(tx, query, id); for _, p := range rowsAsSlice { delta ^= operand }
+						if !results[kit.ObjOf(info, loop.X)] || loop.Value == nil {
+							return true
+						}
+						if _, isSlice := info.TypeOf(loop.X).Underlying().(*types.Slice); !isSlice {
+							return true
+						}
+						row := map[types.Object]bool{}
+						if o := kit.ObjOf(info, loop.Value); o != nil {
+							row[o] = true
+						}
+						if len(row) > 0 && xorPerRow(fd, loop.Body, row) {
+							folded[fd.name] = s.Call
+						} else {
+							loopDiag(fd, loop.Body, row)
+						}
+					}
+					return true
+				})
+			}
+		}
+		return folded, diag
+	}
+	folded, diag := detect(f, wl.delta, node)
+	// a fold that lives in a helper (`existing, err := sdb.nodeContentHash(tx, nodeID); delta ^= existing`):
+	// the helper is judged with the value it returns as its accumulator
+	for _, fd := range folds {
+		if folded[fd.name] != nil || !strings.Contains(diag[fd.name], "are read in helper") {
+			continue
+		}
+		for _, call := range f.AllCalls(false) {
+			h := f.CalleeFunc(call)
+			if h == nil || h.Body == nil || h.Decl == nil || h.Pkg != f.Pkg {
+				continue
+			}
+			// the helper's node parameter and returned accumulator
+			var hnode *types.Var
+			for i, a := range call.Args {
+				if kit.ObjOf(info, a) == types.Object(node) && i < len(h.Params()) {
+					hnode = h.Params()[i]
+				}
+			}
+			var hacc types.Object
+			for _, rs := range returnsOf(h) {
+				if o, ok := kit.ObjOf(info, rs[0]).(*types.Var); ok && isUint32(o.Type()) && kit.IsNilIdent(info, rs[len(rs)-1]) {
+					hacc = o
+				}
+			}
+			if hnode == nil || hacc == nil {
+				continue
+			}
+			f2, _ := detect(h, hacc, hnode)
+			if f2[fd.name] == nil {
+				continue
+			}
+			// its result is XORed into the writer's delta
+			as, ok := c.P.Parent(f.File, call).(*ast.AssignStmt)
+			if !ok || len(as.Lhs) == 0 {
+				continue
+			}
+			resObj := kit.ObjOf(info, as.Lhs[0])
+			flows := false
+			ast.Inspect(f.Body, func(n ast.Node) bool {
+				if x, ok := n.(*ast.AssignStmt); ok && x.Tok == token.XOR_ASSIGN && len(x.Lhs) == 1 && len(x.Rhs) == 1 &&
+					kit.ObjOf(info, x.Lhs[0]) == wl.delta && kit.ObjOf(info, x.Rhs[0]) == resObj && resObj != nil {
+					flows = true
+				}
+				return true
+			})
+			if flows {
+				folded[fd.name] = call
+				c.Analysed(h)
+			}
 		}
 	}
 	// flow: when an edge is inserted, both fold queries have run before the propagation
 	st := &kit.Std{F: f}
 	missing := map[string]bool{}
 	st.OnCall = func(call *ast.CallExpr, n ast.Node, s kit.S) []kit.S {
+		hit := false
 		for name, qc := range folded {
 			if qc == call {
-				return []kit.S{s.Set("f:"+name, "1")}
+				s = s.Set("f:"+name, "1")
+				hit = true
 			}
+		}
+		if hit {
+			return []kit.S{s}
 		}
 		if site := m.siteOf(call); site != nil && site.HasVerb("INSERT", "edges") {
 			return []kit.S{s.Set("ins", "1")}
